@@ -378,9 +378,46 @@ func c15Comut(c *Ctx) {
 	info := f.Info()
 	g := f.Graph()
 	// lock held: a.mu.Lock() first, defer Unlock
-	first := core.ExprStr2(f.Body.List[0])
-	second := core.ExprStr2(f.Body.List[1])
-	c.R.Checkf(rule, "writer-holds-mutex", c.pos(f.Pos()), first == "a.mu.Lock()" && second == "defer a.mu.Unlock()", "NotifyLatencyChange takes the set's mutex for its whole body (%s; %s)", first, second)
+	first, second := "", ""
+	lockedOK := false
+	{
+		var recvObj types.Object
+		if f.Decl.Recv != nil && len(f.Decl.Recv.List[0].Names) > 0 {
+			recvObj = info.ObjectOf(f.Decl.Recv.List[0].Names[0])
+		}
+		touchesRecv := func(n ast.Node) bool {
+			hit := false
+			ast.Inspect(n, func(k ast.Node) bool {
+				if id, ok := k.(*ast.Ident); ok && recvObj != nil && info.ObjectOf(id) == recvObj {
+					hit = true
+				}
+				return !hit
+			})
+			return hit
+		}
+		clean := true // nothing before the lock refers to the set
+		for i, st := range f.Body.List {
+			if core.ExprStr2(st) == "a.mu.Lock()" {
+				first = "a.mu.Lock()"
+				// the unlock is deferred before anything else touches the set
+				for _, nx := range f.Body.List[i+1:] {
+					if core.ExprStr2(nx) == "defer a.mu.Unlock()" {
+						second = "defer a.mu.Unlock()"
+						break
+					}
+					if touchesRecv(nx) {
+						break
+					}
+				}
+				lockedOK = clean && second != ""
+				break
+			}
+			if touchesRecv(st) {
+				clean = false
+			}
+		}
+	}
+	c.R.Checkf(rule, "writer-holds-mutex", c.pos(f.Pos()), lockedOK, "NotifyLatencyChange takes the set's mutex before anything refers to the set and releases it by defer (%s; %s)", first, second)
 	// who writes aliveEntries / dialerToIndex
 	writers := map[string]bool{}
 	for _, wf := range c.P.FuncsIn("component/outbound/dialer") {
